@@ -422,7 +422,11 @@ type ReflectCase struct {
 	BadDepth int    `json:"bad_depth"`
 	BadLeaf  string `json:"bad_leaf"`
 	Good     int    `json:"good_depth"`
-	Msg      string `json:"message,omitempty"`
+	// Repair: the failing object is one object, handed to every failing run;
+	// afterwards the host repairs it in place (the offending leaf is replaced)
+	// and hands the very same maps over again.
+	Repair bool   `json:"repair,omitempty"`
+	Msg    string `json:"message,omitempty"`
 }
 
 const reflectScript = `x = Deep; n = 0; while ( type(x) == "hash" ) { x = x["next"]; n = n + 1; } return [n, Name, type(x)];`
@@ -470,7 +474,33 @@ func runReflect(c *ReflectCase) error {
 	good := func() interface{} {
 		return map[string]interface{}{"Name": "good", "Deep": nestedMap(c.Good, 1)}
 	}
-	for i := 0; i < c.BadRuns; i++ {
+	if c.Repair {
+		one := bad().(map[string]interface{})
+		for i := 0; i < c.BadRuns; i++ {
+			got := observe(used, one)
+			fresh, _ := prepared(c.Script, nil, false)
+			if want := observe(fresh, one); got != want {
+				return fmt.Errorf("run %d on the object that fails %d maps deep: used evaluator %s, fresh evaluator %s", i, c.BadDepth, clip(got, 300), clip(want, 300))
+			}
+		}
+		// the repair: the innermost "next" (the offending value) becomes a number
+		cur := one["Deep"].(map[string]interface{})
+		for {
+			nx, ok := cur["next"].(map[string]interface{})
+			if !ok {
+				break
+			}
+			cur = nx
+		}
+		cur["next"] = 7
+		one["Name"] = "repaired"
+		got := observe(used, one)
+		fresh, _ := prepared(c.Script, nil, false)
+		if want := observe(fresh, one); got != want {
+			return fmt.Errorf("after %d failing runs on one object (it fails %d maps deep) the host repaired that object in place: the used evaluator now gives %s, a fresh evaluator %s", c.BadRuns, c.BadDepth, clip(got, 300), clip(want, 300))
+		}
+	}
+	for i := 0; i < c.BadRuns && !c.Repair; i++ {
 		got := observe(used, bad())
 		fresh, _ := prepared(c.Script, nil, false)
 		if want := observe(fresh, bad()); got != want {
@@ -486,6 +516,13 @@ func runReflect(c *ReflectCase) error {
 }
 
 func init() {
+	replayers["C08/reflect"] = func(raw []byte) error {
+		var c ReflectCase
+		if err := json.Unmarshal(raw, &c); err != nil {
+			return err
+		}
+		return runReflect(&c)
+	}
 	replayers["C07/reflect"] = func(raw []byte) error {
 		var c ReflectCase
 		if err := json.Unmarshal(raw, &c); err != nil {
@@ -503,7 +540,8 @@ func TestC07Reflect(t *testing.T) {
 			BadRuns:  rapid.SampledFrom([]int{1, 2, 5, 20}).Draw(rt, "badruns"),
 			BadDepth: rapid.SampledFrom([]int{0, 1, 10, 100, 400, 900}).Draw(rt, "baddepth"),
 			BadLeaf:  rapid.SampledFrom([]string{"map[string]int", "map[bool]any", "map[int]any", "chan", "struct"}).Draw(rt, "badleaf"),
-			Good:     rapid.SampledFrom([]int{0, 3, 50, 600, 950, 990}).Draw(rt, "good")}
+			Good:     rapid.SampledFrom([]int{0, 3, 50, 600, 950, 990}).Draw(rt, "good"),
+			Repair:   rapid.Bool().Draw(rt, "repair")}
 		if err := runReflect(c); err != nil {
 			c.Msg = err.Error()
 			violation(rt, "C07", c, "%v", err)
@@ -511,5 +549,28 @@ func TestC07Reflect(t *testing.T) {
 		col.Class("bad-leaf:" + c.BadLeaf)
 		cc := c
 		col.Case(fmt.Sprint(*c), c.BadRuns*c.BadDepth > 0, func() interface{} { return cc })
+	})
+}
+
+// TestC08Repair: "the evaluator remains usable afterwards" for the maps
+// themselves: an object whose conversion failed is repaired in place and
+// handed over again (reported under C08; the history is C07Reflect's).
+func TestC08Repair(t *testing.T) {
+	defer silenceAs("repair")()
+	col := evid.New("C08", "repair", "")
+	rapidCheck(t, col, func(rt *rapid.T) {
+		c := &ReflectCase{Prop: "C08", Kind: "reflect", Script: reflectScript,
+			BadRuns:  rapid.SampledFrom([]int{1, 2, 5, 20, 200}).Draw(rt, "badruns"),
+			BadDepth: rapid.SampledFrom([]int{0, 1, 2, 10, 100, 400, 900}).Draw(rt, "baddepth"),
+			BadLeaf:  rapid.SampledFrom([]string{"map[string]int", "map[bool]any", "map[int]any", "chan", "struct"}).Draw(rt, "badleaf"),
+			Good:     rapid.SampledFrom([]int{0, 3, 50, 600, 950, 990}).Draw(rt, "good"),
+			Repair:   true}
+		if err := runReflect(c); err != nil {
+			c.Msg = err.Error()
+			violation(rt, "C08", c, "%v", err)
+		}
+		col.Class("bad-leaf:" + c.BadLeaf)
+		cc := c
+		col.Case(fmt.Sprint(*c), true, func() interface{} { return cc })
 	})
 }
